@@ -11,7 +11,7 @@ import ast
 from .. import AnalysisError, AnchorMissing
 from ..cfg import cfg_of
 from ..model import own_nodes
-from ..values import pattern, match, find, find_all, contains, show, subterms
+from ..values import pattern, match, match_any, find, find_all, contains, show, subterms
 from ..domains import polarity, leaf_matcher, POS, NEG, ZERO, BOTH
 from .base import obligation, src, callee_name, if_branches, split_if
 from .C04 import pattern_term, returns, enclosing_loop, _inside
@@ -764,3 +764,434 @@ def c20_j(ctx):
     ctx.check(ok, J, 'log-Jacobian of the vector = sum over parameters', 'np.sum(logJ)',
               'the per-parameter log-Jacobians are not summed', fn=J, node=rets[0] if rets else
               J.node)
+
+
+def _strip_calls(t, names, methods=()):
+    """Strip shape-only wrappers: np.atleast_2d(x), x.reshape(..), np.squeeze(x) ..."""
+    while True:
+        if t[0] == 'call' and t[1][0] == 'global' and t[1][1] in names and t[2]:
+            t = t[2][0]
+            continue
+        if t[0] == 'call' and t[1][0] == 'attr' and t[1][2] in methods:
+            t = t[1][1]
+            continue
+        return t
+
+
+_SHAPE_ONLY = ('numpy.atleast_2d', 'numpy.atleast_1d', 'numpy.squeeze', 'numpy.asarray',
+               'numpy.array')
+_PD_TESTS = ('numpy.linalg.cholesky', 'scipy.linalg.cholesky', 'scipy.linalg.cho_factor',
+             'numpy.linalg.eigvalsh', 'numpy.linalg.eigvals', 'numpy.linalg.eigh',
+             'numpy.linalg.eig')
+
+
+@obligation('C20-k', 'T14 T3 T8', 'unbiased (Ghurye-Olkin) estimator: published coefficients, '
+            'psi = (n-1) S - (y-m)(y-m)^T / (1-1/n), zero unless psi is positive definite; '
+            'covariances are 2-d for a single summary', floor=12,
+            necessary='any other coefficient is a different (biased) estimator; without the '
+                      'positive-definiteness test an observation far from the simulated mean '
+                      'gets a finite likelihood instead of zero')
+def c20_k(ctx):
+    from .. import ratfun as rf
+    ctx.fact('Price, Drovandi, Lee, Nott (2018) eq. for the unbiased estimator: log p = -d/2 '
+             'log 2pi + log c(d,n-2) - log c(d,n-1) - d/2 log(1-1/n) - (n-d-2)/2 log|(n-1)S| + '
+             '(n-d-3)/2 log psi(M - (y-m)(y-m)^T/(1-1/n)); |(n-1) S| = (n-1)^d |S|')
+    pm = ctx.repo.module('elfi.methods.bsl.pdf_methods')
+    wc = [f for f in pm.functions.values()
+          if any(isinstance(n, ast.Call) and match(ctx.ex(f).raw(n.func), pattern(
+              'scipy.special.loggamma')) is not None for n in own_nodes(f.node))]
+    if len(wc) != 1:
+        raise AnchorMissing('the log c(k, nu) helper (loggamma) in pdf_methods')
+    wcon = wc[0]
+    gos = [f for f in pm.functions.values() if f is not wcon and
+           any(wcon in ctx.cg.resolve(f, c) for c in ctx.calls(f))]
+    if len(gos) != 1:
+        raise AnchorMissing('the unbiased likelihood (caller of {})'.format(wcon.name))
+    go = gos[0]
+    ex = ctx.ex(go)
+    sim, obs = go.params[0], go.params[1]
+    P_SIM, P_OBS = ('param', sim), ('param', obs)
+    wq = 'elfi.methods.bsl.pdf_methods.' + wcon.name
+
+    def leaf(t):
+        if t[0] == 'item' and t[1] == ('attr', P_SIM, 'shape') and t[2] in (0, 1):
+            return 'nd'[t[2]]
+        if t in (('global', 'math.pi'), ('global', 'numpy.pi')):
+            return 'pi'
+        return None
+
+    def atom(t):
+        try:
+            if t[0] == 'call' and t[1][0] == 'global' and t[1][1] in ('math.log', 'numpy.log') \
+                    and len(t[2]) == 1:
+                return ('log', rf.to_rat(t[2][0], leaf))
+            if t[0] == 'call' and t[1] == ('global', wq) and len(t[2]) == 2 and not t[3]:
+                return ('wcon', rf.to_rat(t[2][0], leaf), rf.to_rat(t[2][1], leaf))
+        except rf.Unsupported:
+            return None
+        if t[0] == 'item' and t[2] == 1 and t[1][0] == 'call' and \
+                t[1][1] == ('global', 'numpy.linalg.slogdet') and len(t[1][2]) == 1:
+            m = t[1][2][0]
+            return ('logdet', 'psi' if P_OBS in set(subterms(m)) else 'sigma', m)
+        return None
+
+    def same_key(a, b):
+        if a[0] != b[0]:
+            return False
+        if a[0] == 'logdet':
+            return a[1] == b[1]
+        return all(x.same(y) for x, y in zip(a[1:], b[1:]))
+
+    # the value returned on the normal path
+    vals = []
+    for n in own_nodes(go.node):
+        if isinstance(n, ast.Assign) and isinstance(n.targets[0], ast.Name):
+            t = ex.term(n.value)
+            if any(s[0] == 'call' and s[1] == ('global', wq) for s in subterms(t)):
+                vals.append((n, t))
+    # the smallest assigned value that holds both constants and both log-determinants
+    def complete(t):
+        st = list(subterms(t))
+        return sum(1 for s_ in st if s_[0] == 'call' and s_[1] == ('global', wq)) >= 2 and \
+            sum(1 for s_ in st if s_[0] == 'call' and
+                s_[1] == ('global', 'numpy.linalg.slogdet')) >= 2
+    vals = [v for v in vals if complete(v[1])]
+    vals.sort(key=lambda x: len(repr(x[1])))
+    if not vals:
+        raise AnchorMissing('log-likelihood expression of the unbiased estimator')
+    stmt, T = vals[0]
+    try:
+        lf = rf.to_linform(T, leaf, atom, same_key)
+    except rf.Unsupported as e:
+        ctx.undecided('unbiased estimator outside the log-linear fragment: {}'.format(e))
+    n_, d_, one, half = rf.Rat.sym('n'), rf.Rat.sym('d'), rf.Rat.const(1), \
+        rf.Rat.const(rf.Fraction(1, 2))
+    two, three = rf.Rat.const(2), rf.Rat.const(3)
+    expected = [
+        ('log 2 pi', ('log', two * rf.Rat.sym('pi')), -(d_ * half)),
+        ('log c(d, n-2)', ('wcon', d_, n_ - two), one),
+        ('log c(d, n-1)', ('wcon', d_, n_ - one), -one),
+        ('log(1 - 1/n)', ('log', one - one / n_), -(d_ * half)),
+        ('log(n - 1)', ('log', n_ - one), -(d_ * (n_ - d_ - two) * half)),
+        ('log |S|', ('logdet', 'sigma', None), -((n_ - d_ - two) * half)),
+        ('log |psi|', ('logdet', 'psi', None), (n_ - d_ - three) * half),
+    ]
+    for (label, key, want) in expected:
+        got = lf.coeff(key, same_key)
+        ctx.check(got.same(want), go, 'coefficient of ' + label, str(want),
+                  'in the unbiased estimator the coefficient of {} is {} instead of {}'.format(
+                      label, got, want), fn=go, node=stmt)
+    extra = [(k, v) for (k, v) in lf.nonzero()
+             if not any(k is not None and same_key(k, key) for (_, key, _) in expected)]
+    ctx.check(not extra, go, 'no further terms', '',
+              'the unbiased estimator has extra terms: {}'.format(
+                  [(k if k is None else k[:2], v) for (k, v) in extra][:3]), fn=go, node=stmt)
+    # S and psi
+    keys = dict((k[1], k[2]) for (k, _) in lf.items if k is not None and k[0] == 'logdet')
+    S = keys.get('sigma')
+    PSI = keys.get('psi')
+    if S is None or PSI is None:
+        return
+    S0 = _strip_calls(S, _SHAPE_ONLY)
+    okS = match_cov_rows(S0, P_SIM)
+    ctx.check(okS, go, 'S is the covariance with observations in rows', show(S0)[:60],
+              'S = {} is not the covariance of the simulated summaries with observations in '
+              'rows'.format(show(S0)[:80]), fn=go, node=stmt)
+    ctx.check(S != S0 and S[1] == ('global', 'numpy.atleast_2d'), go,
+              'S is 2-d for a single summary', 'np.atleast_2d(np.cov(..))',
+              'np.cov of a single summary is 0-d: slogdet raises LinAlgError and the estimator '
+              'is -inf for every parameter', fn=go, node=stmt)
+
+    def mleaf(t):
+        if t == S or t == S0:
+            return 'S'
+        if t[0] == 'call' and t[1] in (('global', 'numpy.matmul'), ('global', 'numpy.dot')) and \
+                len(t[2]) == 2:
+            a, b = t[2]
+            bt = b[2][0] if (b[0] == 'call' and b[1] == ('global', 'numpy.transpose') and
+                             b[2]) else None
+            if bt is not None and bt == a and _is_centred(a):
+                return 'O'
+        if t[0] == 'call' and t[1] == ('global', 'numpy.outer') and len(t[2]) == 2 and \
+                t[2][0] == t[2][1] and _is_centred(t[2][0]):
+            return 'O'
+        return leaf(t)
+
+    def _is_centred(v):
+        if v[0] != 'binop' or v[1] != '-':
+            return False
+        y = _strip_calls(v[2], _SHAPE_ONLY, ('reshape', 'flatten', 'ravel'))
+        m = _strip_calls(v[3], _SHAPE_ONLY, ('reshape', 'flatten', 'ravel'))
+        return y == P_OBS and (
+            match(m, pattern('np.mean({}, 0)'.format(sim))) is not None or
+            match(m, pattern('np.mean({}, axis=0)'.format(sim))) is not None or
+            match(m, pattern('{}.mean(0)'.format(sim))) is not None or
+            match(m, pattern('{}.mean(axis=0)'.format(sim))) is not None)
+
+    def desub(t):
+        if t[0] == 'call' and t[1] == ('global', 'numpy.subtract') and len(t[2]) == 2:
+            return ('binop', '-', desub(t[2][0]), desub(t[2][1]))
+        if t[0] == 'call' and t[1] == ('global', 'numpy.add') and len(t[2]) == 2:
+            return ('binop', '+', desub(t[2][0]), desub(t[2][1]))
+        return t
+    try:
+        R = rf.to_rat(desub(PSI), mleaf)
+        want = (n_ - one) * rf.Rat.sym('S') - rf.Rat.sym('O') / (one - one / n_)
+        okP = R.same(want)
+    except rf.Unsupported as e:
+        ctx.undecided('psi outside the rational fragment: {}'.format(e))
+    ctx.check(okP, go, 'psi = (n-1) S - (y-m)(y-m)^T / (1 - 1/n)', str(want),
+              'psi is {} instead of (n-1) S - (y-m)(y-m)^T / (1-1/n)'.format(R), fn=go,
+              node=stmt)
+    # positive-definiteness of psi established: factorisation in a try whose handler yields
+    # -inf, or an eigenvalue test, or (necessary only) the sign of slogdet consulted
+    pd = []
+    for c in ctx.calls(go):
+        f_t = ex.raw(c.func)
+        if f_t[0] == 'global' and f_t[1] in _PD_TESTS and c.args and ex.term(c.args[0]) == PSI:
+            pd.append(c)
+    sign_used = False
+    for n in own_nodes(go.node):
+        if isinstance(n, ast.Assign) and isinstance(n.targets[0], ast.Tuple) and \
+                isinstance(n.value, ast.Call) and \
+                ex.raw(n.value.func) == ('global', 'numpy.linalg.slogdet') and \
+                ex.term(n.value.args[0]) == PSI:
+            s0 = n.targets[0].elts[0]
+            if isinstance(s0, ast.Name) and s0.id != '_':
+                uses = [m for m in own_nodes(go.node) if isinstance(m, ast.Name) and
+                        m.id == s0.id and isinstance(m.ctx, ast.Load)]
+                sign_used = bool(uses)
+    ok = False
+    why = 'no positive-definiteness test of psi'
+    for c in pd:
+        name = ex.raw(c.func)[1]
+        if 'chol' in name or 'cho_factor' in name:
+            # must sit in a try body whose LinAlgError handler leads to -inf
+            tr = [t for t in own_nodes(go.node) if isinstance(t, ast.Try) and
+                  any(_inside(c, b) for b in t.body)]
+            for t in tr:
+                for h in t.handlers:
+                    ht = ex.raw(h.type) if h.type is not None else None
+                    catches = ht is None or ht in (('global', 'numpy.linalg.LinAlgError'),
+                                                   ('global', 'builtins.Exception'),
+                                                   ('name', 'Exception')) or \
+                        (ht[0] == 'tuple' and ('global', 'numpy.linalg.LinAlgError') in ht[1])
+                    neg_inf = any(isinstance(s, ast.Assign) and
+                                  polarity(ex.raw(s.value), lambda x: x in (
+                                      ('global', 'math.inf'), ('global', 'numpy.inf'))) == NEG
+                                  for s in ast.walk(h) if isinstance(s, ast.Assign))
+                    if catches and neg_inf:
+                        ok = True
+            if not ok:
+                why = 'the factorisation of psi is not in a try whose LinAlgError handler ' \
+                      'returns -inf'
+        else:
+            ok = True
+    if not ok and sign_used:
+        ok = True   # necessary part only: the sign is consulted
+    ctx.check(ok, go, 'psi(.) = 0 unless positive definite', 'cholesky in try -> -inf, or '
+              'eigenvalue test', 'the estimator takes log|det psi| with ' + why +
+              ': an indefinite psi (observation far from the simulated mean) gets a finite '
+              'log-likelihood instead of -inf', fn=go, node=stmt)
+    # c(k, nu)
+    exw = ctx.ex(wcon)
+    k_p, nu_p = wcon.params[0], wcon.params[1]
+
+    def wleaf(t):
+        if t == ('param', k_p):
+            return 'k'
+        if t == ('param', nu_p):
+            return 'nu'
+        return None
+
+    def watom(t):
+        if t[0] == 'call' and t[1][0] == 'global' and t[1][1] in ('math.log', 'numpy.log') and \
+                len(t[2]) == 1:
+            a = t[2][0]
+            if a in (('global', 'math.pi'), ('global', 'numpy.pi')):
+                return ('logpi',)
+            if a == ('const', 2):
+                return ('log2',)
+        if t[0] == 'call' and t[1] == ('global', 'numpy.sum') and len(t[2]) == 1 and \
+                t[2][0][0] == 'call' and t[2][0][1] == ('global', 'scipy.special.loggamma'):
+            return ('lgsum', t[2][0][2][0])
+        return None
+
+    def wsame(a, b):
+        return a[0] == b[0]
+    rr = returns(wcon)
+    if len(rr) != 1:
+        ctx.undecided('c(k, nu) helper with {} returns'.format(len(rr)))
+    try:
+        wl = rf.to_linform(exw.term(rr[0].value), wleaf, watom, wsame)
+    except rf.Unsupported as e:
+        ctx.undecided('c(k, nu) outside the log-linear fragment: {}'.format(e))
+    k_, nu_ = rf.Rat.sym('k'), rf.Rat.sym('nu')
+    four = rf.Rat.const(4)
+    for (label, key, want) in (('log 2', ('log2',), -(k_ * nu_) / two),
+                               ('log pi', ('logpi',), -(k_ * (k_ - one)) / four),
+                               ('sum of log-gammas', ('lgsum', None), -one)):
+        got = wl.coeff(key, wsame)
+        ctx.check(got.same(want), wcon, 'log c(k, nu): coefficient of ' + label, str(want),
+                  'in log c(k, nu) the coefficient of {} is {} instead of {}'.format(
+                      label, got, want), fn=wcon, node=rr[0])
+    lg = [k for (k, v) in wl.items if k is not None and k[0] == 'lgsum']
+    ok = False
+    if lg:
+        comp = lg[0][1]
+        if comp[0] == 'comp':
+            body, gens = comp[2], comp[3]
+            rng = gens[0][0] if gens else None
+            try:
+                el = rf.to_rat(body, lambda t: 'i' if t[0] == 'elem' else wleaf(t))
+                ok = el.same((nu_ - rf.Rat.sym('i')) * half) and \
+                    rng == ('call', ('global', 'range'), (('param', k_p),), ())
+            except rf.Unsupported:
+                ok = False
+    ctx.check(ok, wcon, 'log-gamma arguments', '(nu - i)/2 for i in range(k)',
+              'the log-gamma arguments are not (nu - i)/2 for i = 0..k-1', fn=wcon, node=rr[0])
+    # sibling rule: every likelihood that feeds np.cov(simulated) to a matrix routine keeps it 2-d
+    consumers = ('numpy.linalg.slogdet', 'numpy.diag', 'numpy.linalg.cholesky',
+                 'numpy.linalg.inv', 'numpy.linalg.det')
+    for f in pm.functions.values():
+        if not (ctx.calls(f, 'ss.multivariate_normal.logpdf(*_)') or f is go):
+            continue
+        exf = ctx.ex(f)
+        p_sim = ('param', f.params[0])
+        for c in ctx.calls(f):
+            ft = exf.raw(c.func)
+            args = []
+            if ft[0] == 'global' and ft[1] in consumers and c.args:
+                args.append(c.args[0])
+            if match(ft, pattern('ss.multivariate_normal.logpdf')) is not None:
+                args += [k.value for k in c.keywords if k.arg == 'cov']
+                if len(c.args) > 2:
+                    args.append(c.args[2])
+            for a in args:
+                t = exf.term(a)
+                bare = _bare_cov(t, p_sim)
+                if bare is None:
+                    continue
+                ctx.check(not bare, f, 'sample covariance kept 2-d where it is used as a matrix',
+                          'np.atleast_2d(np.cov(..)) / reshape',
+                          'np.cov of a single summary statistic is 0-d; it reaches {} without '
+                          'np.atleast_2d'.format(show(ft)), fn=f, node=c)
+
+
+def _bare_cov(t, p_sim, parent=None, acc=None):
+    """None if t holds no np.cov of the simulated summaries; else the list of such np.cov terms
+    that are not directly wrapped into a 2-d shape."""
+    from ..values import children
+    top = acc is None
+    if acc is None:
+        acc = {'n': 0, 'bare': []}
+    if t[0] == 'call' and t[1] == ('global', 'numpy.cov') and p_sim in set(subterms(t)):
+        acc['n'] += 1
+        wrapped = parent is not None and parent[0] == 'call' and (
+            parent[1] in (('global', 'numpy.atleast_2d'), ('global', 'numpy.reshape')) or
+            (parent[1][0] == 'attr' and parent[1][2] == 'reshape'))
+        if not wrapped:
+            acc['bare'].append(t)
+    else:
+        for c in children(t):
+            if isinstance(c, tuple) and c and isinstance(c[0], str):
+                _bare_cov(c, p_sim, t, acc)
+    if top:
+        return None if acc['n'] == 0 else acc['bare']
+
+
+def match_cov_rows(t, p_sim):
+    """np.cov(sim, rowvar=False) | np.cov(np.transpose(sim)) | np.cov(sim.T)."""
+    if t[0] != 'call' or t[1] != ('global', 'numpy.cov') or not t[2]:
+        return False
+    a = t[2][0]
+    kw = dict(t[3])
+    if a == p_sim:
+        return kw.get('rowvar') == ('const', False) or \
+            (len(t[2]) > 2 and t[2][2] == ('const', False))
+    if a == ('call', ('global', 'numpy.transpose'), (p_sim,), ()):
+        return 'rowvar' not in kw or kw.get('rowvar') == ('const', True)
+    return False
+
+
+@obligation('C20-l', 'T9 T2', 'a shrinkage estimate computed on standardised summaries is scaled '
+            'back to a covariance before the density is evaluated', floor=2,
+            necessary='a correlation-scale matrix used as the covariance of unstandardised '
+                      'summaries evaluates a different density whenever a standard deviation '
+                      'differs from one')
+def c20_l(ctx):
+    ctx.fact('cov((x - m) / s) is the correlation matrix R; the covariance is outer(s, s) * R')
+    pm = ctx.repo.module('elfi.methods.bsl.pdf_methods')
+    n_sites = 0
+    for f in pm.functions.values():
+        lp = ctx.calls(f, 'ss.multivariate_normal.logpdf(*_)')
+        if not lp:
+            continue
+        ex = ctx.ex(f)
+        sim = f.params[0]
+        g = cfg_of(f)
+        for n in own_nodes(f.node):
+            # sim = (sim - mean) / std     (scale-free summaries)
+            if not (isinstance(n, ast.Assign) and isinstance(n.targets[0], ast.Name)):
+                continue
+            v = ex.raw(n.value)
+            m = match(v, pattern('(_x - _m) / _s'))
+            if m is None or n.targets[0].id != sim:
+                continue
+            s_term = m['s']
+            n_sites += 1
+            # every path from here to a density call passes a rescaling by outer(s, s)
+            resc = []
+            for k in own_nodes(f.node):
+                if isinstance(k, ast.Assign):
+                    kv = ex.raw(k.value)
+                    mm = match_any(kv, ('np.outer(_a, _b) * _r', '_r * np.outer(_a, _b)'))
+                    if mm is not None and mm['a'] == s_term and mm['b'] == s_term:
+                        resc.append(k)
+            # tests of the condition that guards the standardisation agree along a path when
+            # the condition only reads parameters that are never re-bound
+            assumed = []
+            for (t_node, pol) in g.guards_of(ctx.node(f, n)):
+                if t_node.kind != 'test':
+                    continue
+                gt = ex.raw(t_node.ast)
+                names = set(s[1] for s in subterms(gt) if s[0] == 'name')
+                if not names or not names <= set(f.all_params):
+                    continue
+                if any(isinstance(k, (ast.Assign, ast.AugAssign)) and any(
+                        isinstance(x, ast.Name) and x.id in names and
+                        isinstance(x.ctx, ast.Store) for x in ast.walk(k))
+                       for k in own_nodes(f.node)):
+                    continue
+                for t2 in g.nodes:
+                    if t2.kind == 'test' and ex.raw(t2.ast) == gt:
+                        assumed.append((t2, pol))
+            ok = True
+            for c in lp:
+                cs = ctx.node(f, c)
+                if g.exists_path_assuming(ctx.node(f, n), cs,
+                                          avoiding=[ctx.node(f, r) for r in resc],
+                                          assumed=assumed):
+                    ok = False
+            ctx.check(ok, f, 'standardised estimate scaled back by outer(std, std)',
+                      'rescale on every path to the density',
+                      'the summaries are standardised by {} but a path to the density does not '
+                      'multiply the estimate by outer({s}, {s}): a correlation matrix is used as '
+                      'the covariance'.format(show(s_term), s=show(s_term)), fn=f, node=n)
+        # the correlation -> covariance conversions in the copula path use one std vector
+        for n in own_nodes(f.node):
+            pass
+    sp = [f for f in pm.functions.values() if ctx.calls(f, 'graphical_lasso(*_)')]
+    for f in sp:
+        ex = ctx.ex(f)
+        for c in ctx.calls(f, 'graphical_lasso(*_)'):
+            n_sites += 1
+            a0 = ex.term(c.args[0]) if c.args else None
+            ok = a0 is not None and any(s[0] == 'call' and s[1] == ('global', 'numpy.cov')
+                                        for s in subterms(a0))
+            ctx.check(ok, f, 'graphical lasso runs on a covariance-type matrix of the simulated '
+                      'summaries', show(a0)[:60] if a0 else None,
+                      'graphical_lasso is not applied to the (sample) covariance', fn=f, node=c)
+    if n_sites < 2:
+        ctx.undecided('expected a standardising branch and graphical-lasso calls, found {} '
+                      'sites'.format(n_sites))
